@@ -110,6 +110,29 @@ P = {
        "(Data::new) are out of this property's scope. Unknown callees propagate taint and do not sanitise.",
   technique="I/O-taint → panic-sink dataflow over MIR (interprocedural through closures), guard dominance, provenance of user-map strings",
   ref="§4 C10"),
+ "C11": dict(
+  text="Must-pass-through and guard polarity on RitiContext::update_engine (layout changed ⇒ the method object is replaced by the very constructor "
+       "creation uses; otherwise the method is refreshed; the new configuration is stored on every path); the layout comparison is shown to be "
+       "on the complete stored layout value; call-graph reachability shows that no object built at creation and kept across update-engine reads an "
+       "option getter, and no option value is stored in a method struct; the fields read while a memo entry is computed are discovered from the "
+       "code and every later reassignment of one must be accompanied by a full HashMap::clear of the memo on the same path; every event passes "
+       "the context's own config. Decides the structural preconditions of 'equals re-creating'; not full behavioural equivalence.",
+  note="Trusted: rustc MIR and trait resolution. Learned selections are not re-read on update and a deleted (rather than edited) auto-correct file is "
+       "not noticed — outside the decided clauses.",
+  technique="must-pass-through/dominance + call-graph reachability to option getters + derived-data invalidation rule (discovered dependency)",
+  ref="§4 C11"),
+ "C05": dict(
+  text="The structural facts a short written lemma needs: who-may-write on the memo over the event-reachable code (only the fill's insert; no "
+       "clear/remove/eviction), provenance of every memo key (the word of the current split or a slice of it; probe key = insert key = the value the "
+       "entry is computed from), the set of fields read inside the fill region (parsers, user auto-correct, letter table, scratch written before "
+       "read), the scratch list cleared before any push, the composition buffer written only by push/pop/clear with the suggestion builder "
+       "post-dominating every push, absence of statics / thread-locals / Rc / Arc / raw pointers outside the C shim, and no hash-order-dependent "
+       "call on the event path. With the lemma (every prefix of the surviving text was the composition once) these give history independence; "
+       "the check decides the facts, not the behaviour.",
+  note="Trusted: rustc MIR; okkhor's convert*_into clears its output first (DESIGN §8); the lemma itself is a paper argument. The learned-selection map "
+       "is also mutated as a cache by the look-up — transparent only by a value-level argument, not decided.",
+  technique="who-may-write / mod-ref analysis + provenance of keys + must-pass-through + type walk for shared state + call scan",
+  ref="§4 C05"),
 }
 
 NA_REASON = "rule module not built yet in this round (see DESIGN.md §4 for the planned static rules)"
